@@ -747,7 +747,7 @@ func (f *Frame) atPoint(where string, st *State, b *ssa.BasicBlock, idx int) {
 		key = f.prefix + " " + where
 	}
 	for _, at := range u.spec.Ats {
-		if at.Where != key {
+		if at.Where != key && !wildcardAnchor(at.Where, key) {
 			continue
 		}
 		at.hit = true
@@ -811,6 +811,10 @@ func (f *Frame) atPoint(where string, st *State, b *ssa.BasicBlock, idx int) {
 				lab := c.Label
 				if lab == "" {
 					lab = fmt.Sprintf("%s/%d", strings.ReplaceAll(where, " ", "_"), i+1)
+				} else if at.Where != key {
+					// wildcard anchor: name the site, so that every site has its own stable obligation
+					site := strings.TrimSuffix(strings.TrimPrefix(where, "call "), " before")
+					lab = lab + "@" + site
 				}
 				u.addObl(st, "assert", lab, t, c)
 				u.assume(st, t)
@@ -938,4 +942,26 @@ func (f *Frame) havocGhosts(st *State) {
 		}
 		st.ghost[g] = u.defs.Fresh("gx_"+g, srt)
 	}
+}
+
+// wildcardAnchor: "call GET#*" matches "call GET#3", "call GET#* before" matches "call GET#3 before" (same closure prefix).
+func wildcardAnchor(pattern, key string) bool {
+	i := strings.Index(pattern, "#*")
+	if i < 0 {
+		return false
+	}
+	head, tail := pattern[:i+1], pattern[i+2:]
+	if !strings.HasPrefix(key, head) || !strings.HasSuffix(key, tail) {
+		return false
+	}
+	mid := key[len(head) : len(key)-len(tail)]
+	if mid == "" {
+		return false
+	}
+	for _, c := range mid {
+		if c < '0' || c > '9' {
+			return false
+		}
+	}
+	return true
 }
